@@ -812,6 +812,8 @@ def attribute(I, e, b):
     if b.tag("kind") in ("hull", "delaunay") and attr in ("vertices", "simplices", "equations", "volume", "points"):
         out.tags["hull_attr"] = attr
         out.unit = None
+    if b.tag("kind") in ("hull", "delaunay") and attr == "area":
+        I.emit("hull_area", e, of=b)          # the (k−1)-dimensional SURFACE measure of the hull (perimeter of a polygon), not its content
     return out
 
 
